@@ -10,6 +10,7 @@ import (
 	"time"
 
 	"github.com/cnotch/ipchub/stats"
+	"github.com/cnotch/ipchub/utils/verifhook"
 	"github.com/cnotch/queue"
 	"github.com/cnotch/xlog"
 )
@@ -47,6 +48,7 @@ func (c *consumption) Close() error {
 	}
 
 	c.closed = true
+	verifhook.Point("media.cclose.flagged", c.consumer)
 	c.recvQueue.Signal()
 	return nil
 }
@@ -76,6 +78,8 @@ func (c *consumption) sendGop(cache packCache) int {
 }
 
 func (c *consumption) consume() {
+	verifhook.Point("media.consume.enter", c.consumer)
+	defer verifhook.Point("media.consume.exit", c.consumer)
 	defer func() {
 		defer func() { // 避免 handler 再 panic
 			recover()
@@ -95,6 +99,7 @@ func (c *consumption) consume() {
 	}()
 
 	for !c.closed {
+		verifhook.Point("media.consume.beforePop", c.consumer)
 		p := c.recvQueue.Pop()
 		if p == nil {
 			if !c.closed {
